@@ -1639,6 +1639,8 @@ def family_for(prop, tier):
         from . import c08
         return c08.family(tier)
     fam = bfamily.family(tier)
+    from . import bfamily3 as _b3
+    fam = fam + _b3.round6_wellformed()
     if prop in ('C09', 'C10'):
         from . import bfamily3
         fam = fam + bfamily3.layout_family(tier)
